@@ -708,6 +708,55 @@ theorem nsiCrossTransitivity_eq_def (A : Adj) (hA : Symm A) (w : Nat → Rat) (L
 example : nsiCrossTransitivity (fun a b => a != b) (fun _ => 1) [0] [1, 2] = some 1 := by
   decide +kernel
 
+/-! ### the order of the second list does not matter (undirected networks) -/
+
+/-- **`_cross_transitivity` does not depend on the order of `node_list2`**: the triangular loop
+`j`, `k < j` visits every unordered pair once whatever the order, and on an undirected network
+both conditions are symmetric in the pair. -/
+theorem ctCounts_perm_right (A : Adj) (hA : Symm A) (L1 : List Nat) {L2 L2' : List Nat}
+    (h : L2.Perm L2') : ctCounts A L1 L2 = ctCounts A L1 L2' := by
+  rw [ctCounts_eq_pairSums, ctCounts_eq_pairSums]
+  have e1 : ∀ n1, pairSum (fun n2 n3 => b2n (A n1 n2 && (A n2 n3 && A n3 n1))) L2
+      = pairSum (fun n2 n3 => b2n (A n1 n2 && (A n2 n3 && A n3 n1))) L2' := by
+    intro n1
+    apply pairSum_perm _ _ h
+    intro a b
+    show b2n (A n1 a && (A a b && A b n1)) = b2n (A n1 b && (A b a && A a n1))
+    rw [hA a b, hA b n1, hA n1 a]
+    cases A a n1 <;> cases A b a <;> cases A n1 b <;> rfl
+  have e2 : ∀ n1, pairSum (fun n2 n3 => b2n (A n1 n2 && A n1 n3)) L2
+      = pairSum (fun n2 n3 => b2n (A n1 n2 && A n1 n3)) L2' := by
+    intro n1
+    apply pairSum_perm _ _ h
+    intro a b
+    simp only [Bool.and_comm]
+  simp only [e1, e2]
+
+/-- … and neither does `cross_local_clustering` (each entry: same counter, same cross degree) -/
+theorem crossLocalClustering_perm_right (A : Adj) (hA : Symm A) (L1 : List Nat)
+    {L2 L2' : List Nat} (h : L2.Perm L2') :
+    crossLocalClustering false A L1 L2 = crossLocalClustering false A L1 L2' := by
+  unfold crossLocalClustering clcKernel
+  have hdeg : crossDegree false A L1 L2 = crossDegree false A L1 L2' := by
+    simp only [crossDegree, Bool.false_eq_true, if_false, crossOutDegree, rowSums, blockN, block,
+      List.map_map, Function.comp_def]
+    apply List.map_congr_left
+    intro a _
+    exact (h.map fun b => b2n (A a b)).sum_eq
+  rw [hdeg]
+  have hc : ∀ n1, clcMid A n1 [] L2 0 = clcMid A n1 [] L2' 0 := by
+    intro n1
+    rw [clcCount_eq_pairSum, clcCount_eq_pairSum]
+    apply pairSum_perm _ _ h
+    intro a b
+    show b2n (A n1 a && (A a b && A b n1)) = b2n (A n1 b && (A b a && A a n1))
+    rw [hA a b, hA b n1, hA n1 a]
+    cases A a n1 <;> cases A b a <;> cases A n1 b <;> rfl
+  simp only [hc]
+
+example : ctCounts (fun a b => a != b) [0] [1, 2, 3] = ctCounts (fun a b => a != b) [0] [3, 1, 2] := by
+  decide
+
 /-! ### both groups = all nodes (in any order): the single-network measures
 
 `Pyunicorn.Net` (`Model/Net.lean`) is the model of `Network.degree / indegree / outdegree /
@@ -883,6 +932,52 @@ theorem whole_local_clustering (A : Adj) (hA : Symm A) (hloop : ∀ a, A a a = f
 
 example : crossLocalClustering false (fun a b => a != b) [2, 0, 1] [2, 0, 1]
     = [2, 0, 1].map (Net.localClustering 3 (fun a b => a != b)) := by decide +kernel
+
+/-- **whole-network limit of the transitivity**: on an undirected loop-free network
+`cross_transitivity(L, L)` with `L` any ordering of all nodes is `Network.transitivity()`
+`Σ_i (A³)_ii / Σ_i k_i (k_i − 1)` — and `0` where the latter is `nan` (no connected triple). -/
+theorem whole_transitivity (A : Adj) (hA : Symm A) (hloop : ∀ a, A a a = false) (n : Nat)
+    (L : List Nat) (h : L.Perm (List.range n)) :
+    crossTransitivity A L L = (Net.transitivity n A).getD 0 := by
+  obtain ⟨h1, h2⟩ := whole_network_transitivity A L
+  rw [whole_outdegree A n L h, List.map_map] at h2
+  -- numerator: Σ_i (A³)_ii = 2 · triangles
+  have hnum : (Net.sumTo n fun i => Net.tCycle n A i) = 2 * (ctCounts A L L).1 := by
+    rw [h1]
+    unfold Net.sumTo
+    rw [← sum_perm_range h]
+    have : (L.map fun i => Net.tCycle n A i)
+        = L.map fun i => 2 * pairSum (fun j k => b2n (A i j && (A j k && A k i))) L := by
+      apply List.map_congr_left
+      intro i _
+      exact tCycle_eq_two_pairSum A hA hloop n L h i
+    rw [this, sum_map_mul_left_nat]
+  -- denominator: Σ_i k_i (k_i − 1) = 2 · triples
+  have hk : ∀ k : Nat, ((k : Int) * ((k : Int) - 1)) = ((k * (k - 1) : Nat) : Int) := by
+    intro k
+    cases k with
+    | zero => simp
+    | succ m => simp only [Nat.add_sub_cancel]; push_cast; ring
+  have hden : (Net.sumToI n fun i => Net.TOut n A i) = ((2 * (ctCounts A L L).2 : Nat) : Int) := by
+    rw [h2]
+    unfold Net.sumToI Net.TOut
+    rw [← sum_perm_range h]
+    simp only [hk, Function.comp_def]
+    rw [cast_sum_map_nat_int]
+  unfold crossTransitivity ratio Net.transitivity
+  simp only [hnum, hden]
+  generalize (ctCounts A L L).1 = tri
+  generalize (ctCounts A L L).2 = trp
+  by_cases hz : trp = 0
+  · simp [hz]
+  · have h2 : ((2 * trp : Nat) : Int) ≠ 0 := by omega
+    have hq : (trp : Rat) ≠ 0 := by exact_mod_cast hz
+    simp only [hz, ne_eq, not_false_eq_true, if_true, h2, if_false, Option.getD_some]
+    push_cast
+    field_simp
+
+example : crossTransitivity (fun a b => a != b) [2, 0, 1] [2, 0, 1]
+    = (Net.transitivity 3 (fun a b => a != b)).getD 0 := by decide +kernel
 
 /-- the mean over the group of the whole network's clustering does not depend on the order of
 the list and, for `L` = all nodes, is `Network.global_clustering()` = the mean of
